@@ -290,22 +290,18 @@ int stop(m_mod_t *mod, bool stopping) {
      * 
      * Finally, on_stop() callback is called.
      */
-    if (stopping) {
-        reset_module(mod);
-        ret = optional_hook(mod, MOD_STOP);
-    }
-    
-    switch (ret) {
-    case -ENOENT:
-        // module was deregistered in on_stop() hook
-        break;
-    default:
+    /* on_stop() may deregister the module: keep it alive, as it left RUNNING state and others are told anyway */
+    M_MEM_LOCK(mod, {
+        if (stopping) {
+            reset_module(mod);
+            ret = optional_hook(mod, MOD_STOP);
+        }
         M_DEBUG("%s '%s'.\n", stopping ? "Stopped" : "Paused", mod->name);
         tell_system_pubsub_msg(NULL, c, mod, M_PS_MOD_STOPPED);
-        ret = 0;
-        break;
-    }
-    return ret;
+    });
+    
+    /* -ENOENT: module was deregistered in on_stop() hook */
+    return ret == -ENOENT ? ret : 0;
 }
 
 int mod_deregister(m_mod_t **mod, bool from_user) {
